@@ -98,9 +98,14 @@ CHECKS = {
                      '(linearity, rate-0 reduction); SLN * life = cost - salvage for all reals, #DIV/0! at life 0; PMT/PV hand exactly (rate, nper, pv|pmt, fv, timing) to the annuity routine.',
                 note=XH_NOTE + ' P4: numpy_financial replaced by a recording stub. NOT applicable: IRR/XIRR root claims (LAPACK eigenvalues / scipy Newton on floats) and the PMT/PV closed forms and their '
                      'inversion (inside numpy_financial); symbolic rates (float pow has no SMT-LIB counterpart).'),
+    'C08': dict(engine='XH', technique='symbolic execution (CrossHair+z3) of the cast layer and of every registered function with numeric parameters under every spelling of the same symbolic value',
+                text='Bounded symbolic model checking: Number/Text/Boolean casts and validate_args on ints (-999..999), digit strings (length <= 3), booleans, blanks, non-numeric text; every registered '
+                     'function with numeric scalar parameters (~75, enumerated at run time) x each numeric position x 8 spellings (int, float, Number, numeric text "n"/"n.0", Text, numpy.int64/float64, TRUE) '
+                     'gives one result; arithmetic coercion identities for + - * unary minus and &; function-name dispatch for 7 spellings (case, _xlfn.), a user-registered function seen by a later evaluator.',
+                note=XH_NOTE + ' Function bodies cross the C boundary, so the spelled value is forked over 1..3; P4 dateutil stub for the non-numeric-text obligation; date-text parsing by dateutil and locale formats are outside.'),
 }
 NA = {
     'C12': 'persist/restore is ten lines around jsonpickle -> json (C encoder) -> gzip/file I/O; no repo-side kernel a solver can quantify over (symbolic values are realised or pickled as proxy objects at the codec boundary)',
 }
-for _p in ['C08', 'C11', ]:
+for _p in ['C11', ]:
     NA.setdefault(_p, 'check not built yet in this revision (planned: see DESIGN.md §4)')
